@@ -85,11 +85,14 @@ P = {
         "the status counts); the partition step of the recursion files each element under that decision (fragment). "
         "Bounded: every pivot sequence for n <= 4 (<= 5 thorough): coherent preferences give exactly the "
         "induced ranking, per-step placement, identical-rankings corollary."), tech=TECH_MIX),
-    "C12": dict(cat="exploration", text=(
-        "Bounded: exact Fraction oracle for both variants, accepted scheme families and multiples, refusal otherwise, "
-        "invariance under permutation of rankings and renaming. Proved pieces: the predicate answers with exactly the four "
-        "documented families; the guard refuses exactly on (incomplete, predicate false)."),
-        tech=TECH_T2 + "; two small functions under deductive contract"),
+    "C12": dict(cat="other", text=(
+        "Proved (fragment: one iteration of the loop over the rankings, any ranking with disjoint buckets, any state of the "
+        "accumulator): every element of the ranking gains exactly (number of elements strictly before its bucket — or its "
+        "bucket index in the bucket-id variant —, 1) and no other entry changes; the predicate answers with exactly the four "
+        "documented families; the guard refuses exactly on (incomplete, predicate false). Bounded: means, ordering and "
+        "grouping by equal mean against an exact Fraction oracle for both variants, accepted scheme families and multiples, "
+        "unified vs raw rankings, refusal otherwise, invariance under permutation of rankings and renaming."),
+        tech=TECH_MIX),
     "C13": dict(cat="other", text=(
         "Proved for all mirror-consistent tables: per-element scores and victory / equality / defeat counts equal the "
         "definitional sums, counts add up to n-1, scores add up to n(n-1)/2. Bounded: ordering by decreasing score with "
